@@ -107,6 +107,191 @@ Proof.
 Qed.
 Print Assumptions C17_relabel_of_deleted_definitions_refuted.
 
+(* ============================================================================================================
+   The CACHE-GUIDED branches (incidence kinds ON; deferred-deleted entities may be present).  Each swap finds the
+   entities whose stored definition mentions the two handles through the bottom-up caches, with a processed set
+   (Base/FoldOnce.v: the loop applies the renaming exactly once at exactly the slots it finds).  Proofs:
+   Kernel/SwapFaceCache.v, Kernel/SwapEdgeCache.v, Kernel/SwapVertexCache.v.
+   Hypotheses: exactness of the caches consulted (vbu_ok/ebu_ok/fbu_ok, the invariant of C01), one cache slot per
+   entity (lens_ok) and "no deferred-deleted entity mentions a or b" - the exact complement of finding D13.
+   [face_relabeled]/[edge_relabeled]/[vertex_relabeled] are explicit records: the two slots (and half-slots, side by
+   side) exchanged in the own arrays, flags, properties and slot-indexed caches, every stored handle renamed by
+   swap_half/swap_idx in the referring definitions and in the handle-valued caches, everything else untouched. *)
+From OVM Require Import Kernel.Closure Kernel.ExactInv Kernel.ExactRun Kernel.SwapFaceCache Kernel.SwapEdgeCache Kernel.SwapVertexCache.
+Local Open Scope nat_scope.
+
+Theorem C17_swap_face_is_the_exact_relabeling_in_every_mode : forall a b s, a <> b -> a < nf s -> b < nf s ->
+  fbu_ok s -> ebu_ok s -> lens_ok s ->
+  (forall c, c < nc s -> c_deleted s c = true -> forall hf, In hf (cell_at s c) -> hf / 2 <> a /\ hf / 2 <> b) ->
+  let s' := swap_face_indices a b s in
+  cells s' = map (map (swap_half a b)) (cells s) /\
+  (ebu s = true -> inc_hfs s' = map (map (swap_half a b)) (inc_hfs s)) /\
+  (fbu s = true -> inc_cell s' = swap_nth (2 * a + 1) (2 * b + 1) None (swap_nth (2 * a) (2 * b) None (inc_cell s))) /\
+  s' = face_relabeled a b s /\
+  (* = the linear-scan result (both incidence kinds off) with the two caches relabeled and the flags put back *)
+  s' = set_flags (vbu s) (ebu s) (fbu s) (deferred s) (fast s)
+         (set_inc_cell (inc_cell (face_relabeled a b s))
+           (set_inc_hfs (inc_hfs (face_relabeled a b s)) (swap_face_indices a b (caches_off_f s)))).
+Proof. exact swap_face_exact_summary. Qed.
+Print Assumptions C17_swap_face_is_the_exact_relabeling_in_every_mode.
+
+Theorem C17_swap_edge_is_the_exact_relabeling_in_every_mode : forall a b s, a <> b -> a < ne s -> b < ne s ->
+  ebu_ok s -> vbu_ok s -> lens_ok s ->
+  (forall f, f < nf s -> f_deleted s f = true -> forall h, In h (face_at s f) -> h / 2 <> a /\ h / 2 <> b) ->
+  let s' := swap_edge_indices a b s in
+  faces s' = map (map (swap_half a b)) (faces s) /\
+  (vbu s = true -> out_hes s' = map (map (swap_half a b)) (out_hes s)) /\
+  (ebu s = true -> inc_hfs s' = swap_nth (2 * a + 1) (2 * b + 1) [] (swap_nth (2 * a) (2 * b) [] (inc_hfs s))) /\
+  s' = edge_relabeled a b s /\
+  s' = set_flags (vbu s) (ebu s) (fbu s) (deferred s) (fast s)
+         (set_inc_hfs (inc_hfs (edge_relabeled a b s))
+           (set_out_hes (out_hes (edge_relabeled a b s)) (swap_edge_indices a b (caches_off_e s)))).
+Proof. exact swap_edge_exact_summary. Qed.
+Print Assumptions C17_swap_edge_is_the_exact_relabeling_in_every_mode.
+
+Theorem C17_swap_vertex_is_the_exact_relabeling_in_every_mode : forall a b s, a <> b -> a < nv s -> b < nv s ->
+  vbu_ok s ->
+  (forall e, e < ne s -> e_deleted s e = true ->
+     ~ (fst (edge_at s e) = a \/ fst (edge_at s e) = b \/ snd (edge_at s e) = a \/ snd (edge_at s e) = b)) ->
+  let s' := swap_vertex_indices a b s in
+  edges s' = map (swap_ends a b) (edges s) /\
+  (vbu s = true -> out_hes s' = swap_nth a b [] (out_hes s)) /\
+  s' = vertex_relabeled a b s /\
+  s' = set_flags (vbu s) (ebu s) (fbu s) (deferred s) (fast s)
+         (set_out_hes (out_hes (vertex_relabeled a b s)) (swap_vertex_indices a b (caches_off_v s))).
+Proof. exact swap_vertex_exact_summary. Qed.
+Print Assumptions C17_swap_vertex_is_the_exact_relabeling_in_every_mode.
+
+(* the hypotheses above are not only sufficient: with NO assumption on the state, each cache-guided loop yields the relabeled
+   array EXACTLY WHEN every entity whose definition mentions a or b is found through the cache (cells_found / faces_found /
+   edges_found) resp. every cache list naming a half-handle of a or b belongs to a walked slot (hfs_sound / out_sound).
+   D13 is the failure of the "found" side for a deferred-deleted entity. *)
+Theorem C17_swap_relabels_exactly_when_every_referrer_is_found : forall a b s, a <> b ->
+  (fbu s = true -> (cells (swap_face_indices a b s) = map (map (swap_half a b)) (cells s) <-> cells_found s a b)) /\
+  (ebu s = true -> (inc_hfs (swap_face_indices a b s) = map (map (swap_half a b)) (inc_hfs s) <-> hfs_sound s a b)) /\
+  (ebu s = true -> (faces (swap_edge_indices a b s) = map (map (swap_half a b)) (faces s) <-> faces_found s a b)) /\
+  (vbu s = true -> (out_hes (swap_edge_indices a b s) = map (map (swap_half a b)) (out_hes s) <-> out_sound s a b)) /\
+  (vbu s = true -> (edges (swap_vertex_indices a b s) = map (swap_ends a b) (edges s) <-> edges_found s a b)).
+Proof.
+  intros a b s N. destruct (swap_face_exactly_when a b s N) as [F1 F2]. destruct (swap_edge_exactly_when a b s N) as [E1 E2].
+  exact (conj F1 (conj F2 (conj E1 (conj E2 (swap_vertex_exactly_when a b s N))))).
+Qed.
+Print Assumptions C17_swap_relabels_exactly_when_every_referrer_is_found.
+
+(* swapping twice restores the EXACT state - every component - in EVERY mode (any subset of incidence kinds, deferred-deleted
+   entities present), in every reachable state with exact caches in which no deferred-deleted entity mentions a or b.
+   (The conditions are re-established by the first swap: cells_found_preserved, hfs_sound_preserved, faces_found_preserved,
+   out_sound_preserved, edges_found_preserved.) *)
+Theorem C17_swap_twice_restores_the_exact_state_in_every_mode : forall ops a b, let s := run ops in
+  vbu_ok s -> ebu_ok s -> fbu_ok s -> lens_ok s ->
+  (a < nf s -> b < nf s -> no_deleted_cell_lists s a b -> swap_face_indices a b (swap_face_indices a b s) = s) /\
+  (a < ne s -> b < ne s -> no_deleted_face_lists s a b -> swap_edge_indices a b (swap_edge_indices a b s) = s) /\
+  (a < nv s -> b < nv s -> no_deleted_edge_at s a b -> swap_vertex_indices a b (swap_vertex_indices a b s) = s) /\
+  (a < nc s -> b < nc s -> swap_cell_indices a b (swap_cell_indices a b s) = s).
+Proof.
+  intros ops a b s VO EO FO L. pose proof (sized_reachable ops) as Z. fold s in Z. repeat split.
+  - intros Ha Hb HD. exact (swap_face_exact_involutive a b s Z Ha Hb FO EO L HD).
+  - intros Ha Hb HD. exact (swap_edge_exact_involutive a b s Z Ha Hb EO VO L HD).
+  - intros Ha Hb HD. exact (swap_vertex_exact_involutive a b s Z Ha Hb VO L HD).
+  - intros Ha Hb. apply (swap_cell_involutive_every_mode a b s Z Ha Hb). intros F.
+    destruct L as (_ & _ & L3 & _). split; apply cell_entries_sound_of_exact; auto.
+Qed.
+Print Assumptions C17_swap_twice_restores_the_exact_state_in_every_mode.
+
+(* the same under the weakest conditions (those of C17_swap_relabels_exactly_when_every_referrer_is_found + cache lengths) *)
+Theorem C17_swap_twice_restores_the_exact_state_when_every_referrer_is_found : forall ops a b, let s := run ops in
+  (a < nf s -> b < nf s -> (fbu s = true -> cells_found s a b /\ length (inc_cell s) = 2 * nf s) -> (ebu s = true -> hfs_sound s a b) ->
+   swap_face_indices a b (swap_face_indices a b s) = s) /\
+  (a < ne s -> b < ne s -> (ebu s = true -> faces_found s a b /\ length (inc_hfs s) = 2 * ne s) -> (vbu s = true -> out_sound s a b) ->
+   swap_edge_indices a b (swap_edge_indices a b s) = s) /\
+  (a < nv s -> b < nv s -> (vbu s = true -> edges_found s a b /\ length (out_hes s) = nv s) ->
+   swap_vertex_indices a b (swap_vertex_indices a b s) = s).
+Proof.
+  intros ops a b s. pose proof (sized_reachable ops) as Z. fold s in Z. repeat split.
+  - intros. apply swap_face_involutive_every_mode; assumption.
+  - intros. apply swap_edge_involutive_every_mode; assumption.
+  - intros. apply swap_vertex_involutive_every_mode; assumption.
+Qed.
+Print Assumptions C17_swap_twice_restores_the_exact_state_when_every_referrer_is_found.
+
+(* ---- non-vacuity.  Two tetrahedra sharing face 3, ALL incidence kinds on, deferred deletion on, properties present. *)
+Definition C17_two_tets : list op :=
+  [AddVertices 5; AddFaceV [0; 1; 2]; AddFaceV [0; 2; 3]; AddFaceV [0; 3; 1]; AddFaceV [1; 3; 2];
+   AddFaceV [1; 2; 4]; AddFaceV [2; 3; 4]; AddFaceV [3; 1; 4]; AddCell [0; 2; 4; 6] false; AddCell [7; 8; 10; 12] false;
+   PropCreate KHF 7%Z; PropSet KHF 0 3 9%Z; PropCreate KHE 1%Z; PropSet KHE 0 5 4%Z; PropCreate KV 0%Z; PropSet KV 0 2 8%Z].
+
+Ltac c17_vm := vm_compute; reflexivity.
+Ltac c17_example :=
+  cbv zeta; repeat match goal with |- _ /\ _ => split end;
+  match goal with
+  | |- cells_found _ _ _ => apply cells_foundb_sound; c17_vm
+  | |- hfs_sound _ _ _ => apply hfs_soundb_sound; c17_vm
+  | |- faces_found _ _ _ => apply faces_foundb_sound; c17_vm
+  | |- out_sound _ _ _ => apply out_soundb_sound; c17_vm
+  | |- edges_found _ _ _ => apply edges_foundb_sound; c17_vm
+  | |- no_deleted_cell_lists _ _ _ => apply no_deleted_cell_listsb_sound; c17_vm
+  | |- no_deleted_face_lists _ _ _ => apply no_deleted_face_listsb_sound; c17_vm
+  | |- no_deleted_edge_at _ _ _ => apply no_deleted_edge_atb_sound; c17_vm
+  | |- _ <> _ => let H := fresh in intros H; vm_compute in H; discriminate H
+  | |- _ < _ => vm_compute; repeat constructor
+  | |- _ = _ => c17_vm
+  | _ => idtac
+  end.
+
+(* faces: cell 1 is deferred-DELETED (it stays in the arrays); swapping two faces of the live cell that share an edge *)
+Example C17_face_swap_with_a_deleted_cell_present :
+  let s := run (C17_two_tets ++ [DelCell 1]) in
+  vbu s = true /\ ebu s = true /\ fbu s = true /\ deferred s = true /\ ndc s = 1 /\ nc s = 2 /\ 0 < nf s /\ 1 < nf s /\
+  cells_found s 0 1 /\ hfs_sound s 0 1 /\ length (inc_cell s) = 2 * nf s /\
+  swap_face_indices 0 1 s = face_relabeled 0 1 s /\ swap_face_indices 0 1 s <> s /\
+  swap_face_indices 0 1 (swap_face_indices 0 1 s) = s /\
+  (* nothing deleted: the shared face 3 and face 5 of the other cell *)
+  cells_found (run C17_two_tets) 3 5 /\ hfs_sound (run C17_two_tets) 3 5 /\
+  swap_face_indices 3 5 (run C17_two_tets) = face_relabeled 3 5 (run C17_two_tets) /\
+  (* and the condition is sharp: the deleted cell lists face 3, the cache cannot find it (D13) *)
+  cells_foundb s 0 3 = false /\ cells (swap_face_indices 0 3 s) <> map (map (swap_half 0 3)) (cells s).
+Proof. c17_example. Qed.
+
+(* edges: face 5 (and with it cell 1) deferred-deleted; edges 0 and 1 are not on face 5 and share vertex 1 *)
+Example C17_edge_swap_with_a_deleted_face_present :
+  let s := run (C17_two_tets ++ [DelFace 5]) in
+  vbu s = true /\ ebu s = true /\ fbu s = true /\ ndf s = 1 /\ ndc s = 1 /\ 0 < ne s /\ 1 < ne s /\
+  faces_found s 0 1 /\ out_sound s 0 1 /\ length (inc_hfs s) = 2 * ne s /\
+  swap_edge_indices 0 1 s = edge_relabeled 0 1 s /\ swap_edge_indices 0 1 s <> s /\
+  swap_edge_indices 0 1 (swap_edge_indices 0 1 s) = s /\
+  faces_found (run C17_two_tets) 0 8 /\ out_sound (run C17_two_tets) 0 8 /\
+  swap_edge_indices 0 8 (run C17_two_tets) = edge_relabeled 0 8 (run C17_two_tets) /\
+  (* sharp: the deleted face 5 lists edge 8 *)
+  faces_foundb s 0 8 = false /\ faces (swap_edge_indices 0 8 s) <> map (map (swap_half 0 8)) (faces s).
+Proof. c17_example. Qed.
+
+(* vertices: edge 8 = (3,4) (with its faces and cell 1) deferred-deleted; vertices 0 and 1 are joined by edge 0 *)
+Example C17_vertex_swap_with_a_deleted_edge_present :
+  let s := run (C17_two_tets ++ [DelEdge 8]) in
+  vbu s = true /\ nde s = 1 /\ 0 < nv s /\ 1 < nv s /\
+  edges_found s 0 1 /\ length (out_hes s) = nv s /\
+  swap_vertex_indices 0 1 s = vertex_relabeled 0 1 s /\ swap_vertex_indices 0 1 s <> s /\
+  swap_vertex_indices 0 1 (swap_vertex_indices 0 1 s) = s /\
+  edges_found (run C17_two_tets) 0 4 /\
+  swap_vertex_indices 0 4 (run C17_two_tets) = vertex_relabeled 0 4 (run C17_two_tets) /\
+  (* sharp: the deleted edge 8 ends at vertex 4 *)
+  edges_foundb s 0 4 = false /\ edges (swap_vertex_indices 0 4 s) <> map (swap_ends 0 4) (edges s).
+Proof. c17_example. Qed.
+
+(* the exactness hypotheses of the *_in_every_mode theorems are satisfiable: every growth history (C01) satisfies them *)
+Example C17_exactness_hypotheses_are_satisfiable :
+  let s := run [AddVertices 5; AddFaceV [0; 1; 2]; AddFaceV [0; 2; 3]; AddFaceV [0; 3; 1]; AddFaceV [1; 3; 2];
+                AddFaceV [1; 2; 4]; AddFaceV [2; 3; 4]; AddFaceV [3; 1; 4]] in
+  vbu_ok s /\ ebu_ok s /\ fbu_ok s /\ lens_ok s /\ vbu s = true /\ ebu s = true /\ fbu s = true /\
+  3 < nf s /\ 5 < nf s /\ no_deleted_cell_lists s 3 5 /\
+  0 < ne s /\ 8 < ne s /\ no_deleted_face_lists s 0 8 /\
+  0 < nv s /\ 4 < nv s /\ no_deleted_edge_at s 0 4 /\
+  swap_face_indices 3 5 s <> s /\ swap_edge_indices 0 8 s <> s /\ swap_vertex_indices 0 4 s <> s.
+Proof.
+  cbv zeta. match goal with |- vbu_ok ?s /\ _ => assert (B : bu_inv s) by (apply bu_inv_growth_histories; vm_compute; reflexivity) end.
+  destruct B as (VO & EO & FO & R & L). c17_example; assumption.
+Qed.
+
 (* non-vacuity of the scan-mode theorem: a reachable state with incidences off, entities of every kind, properties *)
 Example C17_scan_state_exists :
   let s := run [EnableVBU false; EnableEBU false; EnableFBU false; AddVertices 4; AddFaceV [0; 1; 2]; AddFaceV [0; 2; 3];
